@@ -39,7 +39,7 @@ def expectedSites : List (String × String × String × Bool × String) := [
   ("src/eth_rpc/api.go", "StateOverride.Apply", "SetBalance", false, "not a transaction path (eth_call state override on a throw-away state)"),
   ("src/executor/contract_executor.go", "contractExecutor.Execute", "AddBalance", false, "contractExecute (chargeGas step)"),
   ("src/executor/contract_executor.go", "contractExecutor.Execute", "SubBalance", false, "contractExecute (chargeGas step)"),
-  ("src/executor/miner_node_executor.go", "minerNodeExecutor.Execute", "SubBalance", false, "NOT MODELLED: OperatorNode tx debits 10 RPG without crediting anyone (see design/C06.md)"),
+  ("src/executor/miner_node_executor.go", "minerNodeExecutor.Execute", "SubBalance", false, "nodeTx (debits 10 RPG and credits nobody: known finding burn-operator-node-fee)"),
   ("src/service/game.go", "transferBalance", "AddBalance", false, "transferBalance"),
   ("src/service/game.go", "transferBalance", "SubBalance", true, "transferBalance"),
   ("src/service/miner_manager.go", "MinerManager.AddMiner", "SubBalance", false, "lockStake"),
@@ -67,33 +67,34 @@ def expectedSites : List (String × String × String × Bool × String) := [
   ("src/vm/instructions.go", "opSuicide", "AddBalance", false, "suicide")
 ]
 
-/-- the functions the model transcribes: ledger-relevant calls in source order -/
+/-- the functions the model transcribes: ledger-relevant calls and every `return`, in source order
+    (e.g. `AccountDB.Suicide` has no return between its nil test and zeroing the balance) -/
 def expectedOrder : List (String × List String) := [
-  ("src/core/vmexecutor.go:VMExecutor.Execute", ["BeforeExecute", "Snapshot", "Execute", "RevertToSnapshot", "deductGasFee"]),
-  ("src/core/vmexecutor.go:deductGasFee", ["GetBalance", "Cmp", "SubBalance", "AddBalance"]),
-  ("src/executor/base_executor.go:baseFeeExecutor.BeforeExecute", ["validateNonce", "ProcessFee"]),
-  ("src/executor/contract_executor.go:contractExecutor.BeforeExecute", ["validateNonce", "ProcessFee", "decodeContractData", "preCheckContractFee"]),
-  ("src/executor/contract_executor.go:contractExecutor.Execute", ["IntrinsicGas", "Create", "Call", "GetBalance", "Cmp", "SubBalance", "AddBalance"]),
-  ("src/executor/contract_executor.go:preCheckContractFee", ["GetBalance", "Cmp"]),
-  ("src/executor/jsonrpc_executor.go:jsonrpcExecutor.BeforeExecute", ["validateNonce", "ProcessFee", "decodeContractData", "preCheckContractFee"]),
-  ("src/service/game.go:ChangeAssets", ["transferBalance", "GetBalance"]),
-  ("src/service/game.go:transferBalance", ["StrToBigInt", "Sign", "GetBalance", "Cmp", "AddBalance", "SubBalance"]),
-  ("src/service/miner_manager.go:MinerManager.AddMiner", ["GetBalance", "Cmp", "SubBalance"]),
-  ("src/service/miner_manager.go:MinerManager.AddStake", ["GetBalance", "Cmp", "SubBalance"]),
-  ("src/service/refund_manager.go:RefundManager.CheckAndMove", ["AddBalance"]),
-  ("src/service/transaction_pool.go:TxPool.ProcessFee", ["GetBalance", "Cmp", "SubBalance", "AddBalance"]),
-  ("src/storage/account/accountdb.go:AccountDB.Suicide", ["GetBalance", "setBalance"]),
-  ("src/storage/account/accountdb_tuntun.go:AccountDB.AddFT", ["SetData", "setData", "AddFT"]),
-  ("src/storage/account/accountdb_tuntun.go:AccountDB.SubFT", ["Cmp", "SetData", "setData", "SubFT"]),
-  ("src/vm/evm.go:EVM.AuthCall", ["Sign", "CanTransfer", "Snapshot", "Sign", "Transfer", "RevertToSnapshot"]),
-  ("src/vm/evm.go:EVM.Call", ["Sign", "CanTransfer", "Snapshot", "Sign", "Transfer", "RevertToSnapshot"]),
-  ("src/vm/evm.go:EVM.CallCode", ["CanTransfer", "Snapshot", "RevertToSnapshot"]),
-  ("src/vm/evm.go:EVM.DelegateCall", ["Snapshot", "RevertToSnapshot"]),
-  ("src/vm/evm.go:EVM.StaticCall", ["Snapshot", "AddBalance", "RevertToSnapshot"]),
-  ("src/vm/evm.go:EVM.create", ["CanTransfer", "Snapshot", "Transfer", "RevertToSnapshot"]),
-  ("src/vm/init.go:CanTransfer", ["Sign", "Cmp", "GetBalance"]),
+  ("src/core/vmexecutor.go:VMExecutor.Execute", ["BeforeExecute", "Snapshot", "Execute", "RevertToSnapshot", "deductGasFee", "return"]),
+  ("src/core/vmexecutor.go:deductGasFee", ["return", "GetBalance", "Cmp", "SubBalance", "AddBalance"]),
+  ("src/executor/base_executor.go:baseFeeExecutor.BeforeExecute", ["validateNonce", "return", "ProcessFee", "return", "return"]),
+  ("src/executor/contract_executor.go:contractExecutor.BeforeExecute", ["validateNonce", "return", "ProcessFee", "return", "decodeContractData", "return", "preCheckContractFee", "return", "return"]),
+  ("src/executor/contract_executor.go:contractExecutor.Execute", ["return", "IntrinsicGas", "return", "return", "Create", "Call", "GetBalance", "Cmp", "SubBalance", "AddBalance", "return", "return"]),
+  ("src/executor/contract_executor.go:preCheckContractFee", ["GetBalance", "Cmp", "return", "return"]),
+  ("src/executor/jsonrpc_executor.go:jsonrpcExecutor.BeforeExecute", ["validateNonce", "return", "ProcessFee", "return", "decodeContractData", "return", "preCheckContractFee", "return", "return"]),
+  ("src/service/game.go:ChangeAssets", ["transferBalance", "return", "GetBalance", "return"]),
+  ("src/service/game.go:transferBalance", ["StrToBigInt", "return", "Sign", "return", "GetBalance", "Cmp", "return", "AddBalance", "SubBalance", "return"]),
+  ("src/service/miner_manager.go:MinerManager.AddMiner", ["return", "return", "return", "GetBalance", "Cmp", "return", "return", "return", "SubBalance", "return"]),
+  ("src/service/miner_manager.go:MinerManager.AddStake", ["return", "GetBalance", "Cmp", "return", "return", "return", "SubBalance", "return"]),
+  ("src/service/refund_manager.go:RefundManager.CheckAndMove", ["return", "return", "AddBalance"]),
+  ("src/service/transaction_pool.go:TxPool.ProcessFee", ["GetBalance", "Cmp", "return", "SubBalance", "AddBalance", "return"]),
+  ("src/storage/account/accountdb.go:AccountDB.Suicide", ["return", "GetBalance", "setBalance", "return"]),
+  ("src/storage/account/accountdb_tuntun.go:AccountDB.AddFT", ["return", "SetData", "setData", "return", "return", "AddFT"]),
+  ("src/storage/account/accountdb_tuntun.go:AccountDB.SubFT", ["return", "Cmp", "return", "SetData", "setData", "return", "return", "SubFT"]),
+  ("src/vm/evm.go:EVM.AuthCall", ["return", "Sign", "CanTransfer", "return", "Snapshot", "Sign", "return", "Transfer", "RevertToSnapshot", "return"]),
+  ("src/vm/evm.go:EVM.Call", ["return", "Sign", "CanTransfer", "return", "Snapshot", "Sign", "return", "Transfer", "RevertToSnapshot", "return"]),
+  ("src/vm/evm.go:EVM.CallCode", ["return", "CanTransfer", "return", "Snapshot", "RevertToSnapshot", "return"]),
+  ("src/vm/evm.go:EVM.DelegateCall", ["return", "Snapshot", "RevertToSnapshot", "return"]),
+  ("src/vm/evm.go:EVM.StaticCall", ["return", "Snapshot", "AddBalance", "RevertToSnapshot", "return"]),
+  ("src/vm/evm.go:EVM.create", ["return", "return", "CanTransfer", "return", "return", "Snapshot", "Transfer", "RevertToSnapshot", "return"]),
+  ("src/vm/init.go:CanTransfer", ["Sign", "return", "return", "Cmp", "GetBalance"]),
   ("src/vm/init.go:Transfer", ["SubBalance", "AddBalance"]),
-  ("src/vm/instructions.go:opSuicide", ["GetBalance", "AddBalance", "Suicide"])
+  ("src/vm/instructions.go:opSuicide", ["GetBalance", "AddBalance", "Suicide", "return"])
 ]
 
 def hexOf (n : Nat) : String := String.ofList (Nat.toDigits 16 n)
